@@ -69,3 +69,12 @@ func init() {
 		return !isCheckpoint && !strings.Contains(text, "snapshot")
 	}
 }
+
+func init() {
+	// An import that spans more than one importer batch (10 000 nodes) and is not committed - interrupted, or
+	// a later write failed and the error was reported - leaves the nodes of the first batch(es) in the store;
+	// version discovery finds their keys and Load() fails ("version does not exist").
+	rawMatchers["c10_uncommitted_import_nodes_break_load"] = func(prop, text string) bool {
+		return strings.HasPrefix(text, "import of ") && strings.Contains(text, "the import was not committed") && strings.Contains(text, "Load fails: version does not exist")
+	}
+}
